@@ -7,6 +7,11 @@ pub fn vpanic() -> !
     requires false,
 { panic!() }
 
+/// rule R5: a panic that is intended behaviour of the function under contract (execution stops)
+#[verifier::external_body]
+pub fn vpanic_intended() -> !
+{ panic!() }
+
 #[derive(PartialEq, Eq, Clone, Copy, Structural)]
 pub enum ErrorKind { NotFound, PermissionDenied, ConnectionRefused, ConnectionReset, ConnectionAborted, NotConnected,
     AddrInUse, AddrNotAvailable, BrokenPipe, AlreadyExists, WouldBlock, InvalidInput, InvalidData, TimedOut, WriteZero,
@@ -71,6 +76,8 @@ impl PartialOrd for Duration {
     fn partial_cmp(&self, other: &Duration) -> Option<core::cmp::Ordering> { unimplemented!() }
 }
 
+pub uninterp spec fn now_spec() -> int;
+
 /// tokio::time::Instant (re-exported as actix_rt::time::Instant): a point on a ghost clock
 #[verifier::external_body]
 #[derive(Clone, Copy)]
@@ -79,9 +86,11 @@ pub struct Instant { _p: () }
 impl Instant {
     pub uninterp spec fn t(&self) -> int;
 
-    /// the clock is read from the environment: any value (monotonicity is not needed by any contract)
+    /// the clock is read from the environment.  `now_spec()` is an arbitrary but fixed value: time is frozen for
+    /// the duration of one verified call (assumption A-CLOCK); nothing relates it to earlier calls.
     #[verifier::external_body]
     pub fn now() -> (r: Instant)
+        ensures r.t() == now_spec(),
     { unimplemented!() }
 
     #[verifier::external_body]
